@@ -51,8 +51,7 @@ struct ASAM_CMP_InterfaceStatus g_if0, g_iflast;        /* ghost snapshots (shal
 
 /* ---- value semantics (C14) ---- */
 size_t g_w;               /* ghost witness: index of a differing byte when an equality returns false */
-#define VAL_PAYLOAD(p)   (__CPROVER_is_fresh((p), sizeof(*(p))) && (p)->payloadData.n <= VEC_MAX && CEX_LIMIT((p)->payloadData.n) && __CPROVER_is_fresh((p)->payloadData.d, CEX_CAP((p)->payloadData.n)))
-#define VAL_PACKET(p)    (__CPROVER_is_fresh((p), sizeof(*(p))) && ((p)->payload == 0 || VAL_PAYLOAD((p)->payload)))
+/* VAL_PAYLOAD / VAL_PACKET: see vocab.h */
 #ifdef VERIF_ALIAS
 /* aliased harnesses: both sides / target and source are the SAME object (no separation assumed) */
 #define EQ_RHS(l, r)         ((r) == (l))
